@@ -283,6 +283,53 @@ def run(F, chk):
               "to it (type indices, gated sizes) and to both reference kinds")
     chk.floor("R6.9", 6)
 
+    # ---------------------------------------------------------------- R6.10 positions are not block numbers
+    R10 = chk.rule("R6.10", "the first argument of NiRefArray::GetBlockRef / SetBlockRef / RemoveBlockRef is a position in the reference "
+                            "array, not a block number: it is never a value obtained from GetBlockID / AddBlock / GetBlockRef or from a "
+                            "reference's `index` (both are uint32_t, so the mix-up compiles; it detaches whatever sits at that "
+                            "position and leaves the intended reference in place)")
+    BLOCKNO_CALLS = ("GetBlockID", "AddBlock", "GetBlockRef", "CloneNamedNode")
+
+    def _blockno(e, defs, depth=0):
+        for x in walk(e):
+            if x["k"] == "Call" and x.get("short") in BLOCKNO_CALLS:
+                return show(x)[:50]
+            if x["k"] == "Member" and x.get("name") == "index" and "NiRef" in (x.get("owner") or ""):
+                return show(x)[:50]
+            if x["k"] == "Ref" and x.get("rk") == "local" and x.get("id") in defs and depth < 3:
+                for d_ in defs[x["id"]]:
+                    r_ = _blockno(d_, defs, depth + 1)
+                    if r_:
+                        return "%s (= %s)" % (x["name"], r_)
+        return None
+
+    n10 = 0
+    for fn in sorted(F.fns.values(), key=lambda f: f["id"]):
+        if not fn.get("body") or fn.get("tmpl") == "pattern" or not ((fn.get("file") or "").startswith("src/") or fn.get("lambda_parent")):
+            continue
+        calls = [n for n in walk(fn["body"]) if n["k"] == "Call" and n.get("short") in ("GetBlockRef", "SetBlockRef", "RemoveBlockRef")
+                 and n.get("args") and "RefArray" in (n.get("cls") or "")]
+        if not calls:
+            continue
+        defs = {}  # every value a local is given (initialiser and plain assignments)
+        for d in walk(fn["body"]):
+            if d["k"] == "Decl":
+                for v in d.get("vars", []):
+                    if is_node(v.get("init")):
+                        defs.setdefault(v["id"], []).append(v["init"])
+            elif d["k"] == "Assign" and d["op"] == "=" and is_node(d["l"]) and d["l"]["k"] == "Ref" and is_node(d["r"]):
+                defs.setdefault(d["l"]["id"], []).append(d["r"])
+        for n in calls:
+            n10 += 1
+            src = _blockno(n["args"][0], defs)
+            chk.instance(R10, ok=src is None, sample={"fn": fn["name"], "call": show(n)[:70]})
+            if src:
+                chk.violation("R6.10", "C06/R6.10:%s:%s" % (fn["name"].split("(")[0], n["short"]), where(fn, n),
+                              "%s passes the block number `%s` where %s expects a position in the reference array: the reference that "
+                              "happens to sit at that position is affected and the intended one is left as it was" %
+                              (fn["name"], src, n["short"]))
+    chk.floor(R10, 6)
+
     # ---------------------------------------------------------------- R6.8
     chk.share(F, "c05", ["R5.1", "R5.2", "R5.5"], "R6.8",
               "BlockDeleted and SetBlockOrder fix up exactly the references the enumerators report")
